@@ -163,6 +163,13 @@ class Ctx(object):
             self.fail(sig, detail() if callable(detail) else detail)
         return cond
 
+    @staticmethod
+    def _args(a):
+        try:
+            return repr(a)
+        except ValueError:  # an integer too long for Python's decimal conversion limit
+            return "(%s)" % ", ".join("<int of %d bits>" % x.bit_length() if isinstance(x, int) else repr(x) for x in a)
+
     def ok(self, sig, f, *a, **kw):
         """Call mingus code that the property says must succeed."""
         try:
@@ -170,7 +177,7 @@ class Ctx(object):
         except Violation:
             raise
         except Exception as e:  # noqa
-            self.fail("%s/raises/%s" % (sig, type(e).__name__), "%s%r raised %r" % (getattr(f, "__name__", f), a, e))
+            self.fail("%s/raises/%s" % (sig, type(e).__name__), "%s%s raised %r" % (getattr(f, "__name__", f), self._args(a), e))
             return _FAILED
 
     def raises(self, sig, exc_types, f, *a, **kw):
@@ -183,9 +190,9 @@ class Ctx(object):
             raise
         except Exception as e:  # noqa
             self.fail("%s/wrong-error/%s" % (sig, type(e).__name__),
-                      "%s%r raised %r, expected %s" % (getattr(f, "__name__", f), a, e, exc_types))
+                      "%s%s raised %r, expected %s" % (getattr(f, "__name__", f), self._args(a), e, exc_types))
             return False
-        self.fail("%s/accepted" % sig, "%s%r returned %r, expected %s" % (getattr(f, "__name__", f), a, r, exc_types))
+        self.fail("%s/accepted" % sig, "%s%s returned %r, expected %s" % (getattr(f, "__name__", f), self._args(a), r, exc_types))
         return False
 
     # ---- drivers -----------------------------------------------------------------------------
